@@ -139,6 +139,24 @@ def check_reorder(name, kw, cfg, ops, crumbfn=None):
                     probs.append(('neighbours-after-update:stale',
                                   dict(pair=key, got=a[:4], fresh=b[:4])))
                     break
+        elif op in ('grow', 'shrink'):
+            # the particle count changes after the NNPS object was built
+            pa = pas[0]
+            n = pa.get_number_of_particles()
+            if op == 'grow':
+                pa.extend(2)
+                for q, off in (('x', 0.41), ('y', 0.17), ('z', 0.0)):
+                    a = pa.get(q, only_real_particles=False)
+                    for j in (0, 1):
+                        a[n + j] = (a[0] if n else 0.0) + off * (j + 1) * (
+                            1 if (q == 'x' or cfg['dim'] > 1) else 0)
+                h = pa.get('h', only_real_particles=False)
+                h[n:] = h[0] if n else 0.5
+                g = pa.get('gid', only_real_particles=False)
+                g[n:] = [1000 + n, 1001 + n]
+                pa.align_particles()
+            elif n > 1:
+                pa.remove_particles([n - 1])
         elif op == 'move':
             for a, pa in enumerate(pas):
                 n = pa.get_number_of_particles()
@@ -161,6 +179,9 @@ HISTORIES = [
     ('reorder0', 'update', 'reorder0', 'update'),
     ('move', 'update', 'reorder0', 'reorder1', 'update'),
     ('reorder1', 'update', 'move', 'update', 'reorder1', 'update'),
+    ('grow', 'update', 'reorder0', 'reorder1', 'update'),
+    ('shrink', 'update', 'reorder0', 'update', 'grow', 'update', 'reorder0',
+     'update'),
 ]
 
 
@@ -243,7 +264,7 @@ def run(ctx):
     shutil.rmtree(CRUMB_DIR, ignore_errors=True)
     cfgs = configs(ctx.thorough, ctx.seed)
     hists = HISTORIES if ctx.thorough else HISTORIES[:3] + \
-        [HISTORIES[3 + ctx.seed % 2]]
+        [HISTORIES[3 + ctx.seed % 2], HISTORIES[5 + ctx.seed % 2]]
     chunk = max(10, len(cfgs) // (ctx.ncpu * 8))
     jobs = [cfgs[i:i + chunk] for i in range(0, len(cfgs), chunk)]
     viol = {}
